@@ -235,6 +235,10 @@ def stepSlice (st : St) (op : String) (kv : KV) : St × String :=
     | "s.s2a" => let a := s.toArr; (putAcc st d (.ar a), s!"ok a={(a.addr : Int) - m.base} n={a.nelem}")
     | "s.aref" => (st, fmtRes (s.alignedRef (kv.nat "off") (ty kv)) (fun p => s!"ok a={(p : Int) - m.base}"))
     | "s.guard" => (st, s!"ok a={(s.addr : Int) - m.base} n={s.guardLen}")
+    | "s.bv" =>
+      let off := min (kv.nat "off") s.size
+      let len := min (kv.nat "len") (s.size - off)
+      (st, s!"ok {fromSlice (s.addr + off) len (ty kv)} off={off} len={len}")
     | "s.write" => match s.write m (kv.bytes "data") (kv.nat "addr") with
       | .ok (m', n) => ({ st with mem := m' }, s!"ok n={n} {fmtMem m'}")
       | .err e => (st, s!"{fmtErr e} {fmtMem m}")
@@ -411,6 +415,21 @@ def stepGuest1 (st : St) (op : String) (kv : KV) : St × String :=
       | .err e => (st, fmtErr e ++ " " ++ fmtGMem g)
       | .panic => (st, "panic")
     | "g.load" => (st, fmtRes (g.load (ty kv) a) (fun x => s!"ok data={hexEncode x}"))
+    | "g.ta" =>
+      -- `try_access(count, addr, f)` with a scripted callback: `f` = Ok(len), `o<n>` = Ok(n), `e` = Err(HostAddressNotAvailable);
+      -- an exhausted script answers Ok(len).  The observation lists what the callback was given.
+      let script := ((kv.str "script").splitOn ",").filter (· ≠ "")
+      let cb : GMem → (List String × List String) → Nat → Nat → Nat → Nat → GMem × (List String × List String) × Res Nat :=
+        fun m (sc, seen) total len start idx =>
+          let seen' := seen ++ [s!"{total}:{len}:{start}:{idx}"]
+          match sc with
+          | [] => (m, ([], seen'), .ok len)
+          | x :: rest =>
+            if x = "f" then (m, (rest, seen'), .ok len)
+            else if x = "e" then (m, (rest, seen'), .err .hostAddressNotAvailable)
+            else (m, (rest, seen'), .ok ((String.ofList (x.toList.drop 1)).toNat?.getD 0))
+      let (_, (_, seen), r) := GMem.tryAccess cb g (script, []) (kv.nat "count") a
+      (st, fmtRes r (fun n => s!"ok n={n}") ++ " calls=" ++ ",".intercalate seen)
     | "g.rvf" | "g.revf" =>
       match tget st.rds (kv.nat "rd") with
       | none => (st, "bad-id")
@@ -560,6 +579,11 @@ def step (st : St) (line : String) : St × String :=
   if op = "" then (st, "")
   else if op = "prof" then ({ st with chk := kv.nat "chk" = 1 }, "ok")
   else if op = "c.copy" then (st, fmtTrace (copySliceTrace (w64 kv "src") (w64 kv "dst") (kv.nat "total")))
+  else if op = "c.atomic" then
+    -- atomic load/store of `ts` bytes at offset `off` of a slice based at `base` with `size` bytes:
+    -- refused unless in bounds and the real location is aligned (get_atomic_ref / Bytes::store,load)
+    let s : VSlice := { addr := kv.nat "base", size := kv.nat "size", bmBase := 0 }
+    (st, fmtRes (s.alignedRef (kv.nat "off") ⟨kv.nat "ts", kv.nat "ts"⟩) (fun _ => "ok"))
   else if op.startsWith "a." then (st, stepAddr st op kv)
   else if op.startsWith "e." then (st, stepEndian op kv)
   else if op.startsWith "b." then stepBitmap st op kv
